@@ -48,7 +48,7 @@ CHECKS = {
         "design": "DESIGN.md sections 4 and 5 C02",
     },
     "C03": {
-        "text": "Coq: in every reachable protocol state every crash image reopens (recover never fails), no torn cell is ever seen by the scan, and the contents are exactly those before or after the transaction in flight (crash_atomic); the invariant holds along every history; admissibility of record batches and retirements. Tie as C02, with hostile values containing byte-exact markers and record heads with valid tokens; the oracle additionally requires that every exposed key carries a generation the application stored under that key and that len equals the number of exposed keys.",
+        "text": "Coq: in every reachable protocol state every crash image reopens (recover never fails), no torn cell is ever seen by the scan, and the contents are exactly those before or after the transaction in flight (crash_atomic); the invariant holds along every history; admissibility of record batches and retirements. Tie as C02, with hostile values containing byte-exact markers and record heads with valid tokens; the oracle additionally requires that every exposed key carries a generation the application stored under that key and that len equals the number of exposed keys. At the byte level (Model/Recovery.v): a data area holding any number of generations of each key in any order, completed marker runs and free blocks is scanned without error to exactly the newest-wins fold over the records in device order; every key exposed carries one generation that is on the device and is at least as new as every generation of that key on the device.",
         "note": TRUST + " As C02.",
         "design": "DESIGN.md sections 4 and 5 C03",
     },
